@@ -12,7 +12,23 @@ The code modelled is the tree **with** `fixes/C06-single-flight.patch` and
 * the done-callbacks clear a slot only if it still holds the finished task (model.py);
 * `remove` cancels (and awaits) whatever is left in the slots after the transfer left the list;
 * `_initialize_download` stops when `state.initialize()` is refused (it answers the peer's request
-  with `allowed=False` and ends without touching the transfer).
+  with `allowed=False` and ends without touching the transfer);
+* `_on_peer_transfer_queue` looks the transfer up again after it asked the shares manager
+  (`fixes/C06-peer-queue-removed.patch`): the look-up suspends the handler, and a transfer that was
+  removed meanwhile is not re-queued.
+
+Work outside the two slots.  Everything the code does in the background for a transfer runs inside
+the task one of its slots holds.  In particular the upload that hits a write error calls
+`state.fail()` and then delivers `PeerUploadFailed` *in the same task* (manager.py, `_upload_file`):
+the transfer is FAILED while its task is still alive (`taskEnd t .failing`: the state changes, the
+task goes on; its end comes later, with any outcome).  `remove` (the only call FAILED accepts)
+cancels it like any other slot task.
+
+Peer message handlers are single steps, except the two that wait: the `PeerTransferRequest` handler
+starts a task whose first action waits for the state lock (above), and the `PeerTransferQueue`
+handler for an upload that is in the list asks the shares manager before it decides
+(`peerQueueStart` = the message arrives and the transfer is found, `peerQueueEnd` = the handler goes
+on: *the library's own continuation*, not a new action of the peer).
 
 The state lock.  `abort` / `pause` hold `Transfer._state_lock` from their first step until they
 return (`_with_state_lock`, state.py:17-29); `remove` holds it for its `abort` part only
@@ -50,7 +66,9 @@ deriving DecidableEq, Repr
 inductive CallKind | abort | pause | remove
 deriving DecidableEq, Repr
 
-inductive Outcome | ok | fail | toQueue | transferring | complete | incomplete
+/-- `failing`: `state.fail()` inside the task, which is not over yet (an upload that hit a write error still delivers
+`PeerUploadFailed`, possibly over a slow connection) -/
+inductive Outcome | ok | fail | toQueue | transferring | complete | incomplete | failing
 deriving DecidableEq, Repr
 
 structure Task where
@@ -75,6 +93,7 @@ structure XT where
   locked : Option CallKind := none -- abort / pause / remove in progress
   waitFor : List Nat := []         -- the tasks that call cancelled and awaits
   removed : Bool := false          -- no longer in `_transfers`
+  pq : Nat := 0                    -- PeerTransferQueue handlers that found this upload and are asking the shares manager
   quiet : Bool := false            -- ghost
   acts : Nat := 0                  -- ghost
 deriving Repr
@@ -167,6 +186,8 @@ inductive Op
   | requeue (k : Nat)                     -- TransferManager.queue from ABORTED / PAUSED / COMPLETE / INCOMPLETE / FAILED
   | peerFail (k : Nat)                    -- PeerTransferQueueFailed for download k: `state.fail(reason)` (manager.py, _on_peer_transfer_queue_failed)
   | peerUploadFailed (k : Nat)            -- PeerUploadFailed for download k: `remotely_queued = False` (manager.py, _on_peer_upload_failed)
+  | peerQueueStart (k : Nat)              -- PeerTransferQueue for upload k, found in the list: the handler asks the shares manager (suspends)
+  | peerQueueEnd (k : Nat)                -- ... and goes on: looks the transfer up again, FAILED / COMPLETE -> QUEUED (manager.py, _on_peer_transfer_queue)
 deriving Repr
 
 def bump (x : XT) : XT := { x with acts := x.acts + 1 }
@@ -239,6 +260,9 @@ def step (s : TS) : Op → TS
         | _, .incomplete =>                                                                 -- file connection broke: `state.incomplete()`
           { s with tasks := upd s.tasks t { tk with phase := .done },
                    xs := upd s.xs tk.xfer (bump (if x.st = .downloading then { x with st := .incomplete } else x)) }
+        | _, .failing =>                                                                    -- `state.fail()`, the task goes on (PeerUploadFailed)
+          { s with xs := upd s.xs tk.xfer (bump (if x.st = .initializing ∨ x.st = .uploading ∨ x.st = .downloading
+                     then { x with st := .failed, retry := false } else x)) }
         | _, _ =>
           { s with tasks := upd s.tasks t { tk with phase := .done },
                    xs := upd s.xs tk.xfer (bump (if x.st = .initializing ∨ x.st = .uploading ∨ x.st = .downloading
@@ -301,13 +325,28 @@ def step (s : TS) : Op → TS
     -- found in the list: `transfer.remotely_queued = False` (neither state nor lock are looked at)
     let x := s.xs k
     if k < s.nx ∧ x.dir = .download ∧ x.removed = false then { s with xs := upd s.xs k { x with rq := false } } else s
+  | .peerQueueStart k =>
+    -- `find_transfer` finds the upload: the handler awaits `find_shared_item` (the file system is asked through the executor)
+    let x := s.xs k
+    if k < s.nx ∧ x.dir = .upload ∧ x.removed = false then { s with xs := upd s.xs k { x with pq := x.pq + 1 } } else s
+  | .peerQueueEnd k =>
+    -- the handler goes on: it looks the transfer up again (fix) — one that left the list meanwhile is not touched (the
+    -- request is then one for a file that is not in the list: a NEW upload, `addUpload`); one that is in the list and
+    -- FAILED / COMPLETE is re-queued by the peer (`state.queue()`; nothing holds the state lock of such a transfer)
+    let x := s.xs k
+    if 0 < x.pq then
+      if x.removed = false ∧ x.locked = none ∧ x.dir = .upload ∧ (x.st = .failed ∨ x.st = .complete) then
+        { s with xs := upd s.xs k { x with pq := x.pq - 1, st := .queued, rq := false, quiet := false } }
+      else { s with xs := upd s.xs k { x with pq := x.pq - 1 } }
+    else s
 
 def run (ops : List Op) : TS := ops.foldl step {}
 
-/-- the op is a user / peer action on transfer `k` -/
+/-- the op is a user / peer action on transfer `k`.  `peerQueueEnd` is NOT one: the peer's message arrived with
+`peerQueueStart`, what the handler does when it is resumed is the library's own doing. -/
 def Op.addresses : Op → Nat → Bool
   | .peerRequest j, k | .call j _, k | .removeMid j, k | .callResume j, k | .requeue j, k | .peerFail j, k
-  | .peerUploadFailed j, k => j == k
+  | .peerUploadFailed j, k | .peerQueueStart j, k => j == k
   | _, _ => false
 
 end AioslskVerif.Tasks
